@@ -394,11 +394,24 @@ theorem good_handleMsg (n : Node) (m : Msg) (peer : String) (g : Good n) : Good 
   · exact good_addParts _ _ _ _ g
   · exact good_addVote _ _ _ _ g
 
-/-- what the consensus routine consumes: a peer's message, the head of its own queue, a timeout -/
+theorem same_setPeerMaj23 (n : Node) (height round : Int) (type : Nat) (peer : String) (bid : VoteSet.BlockID) :
+    Same n (setPeerMaj23 n height round type peer bid) := by
+  unfold setPeerMaj23
+  split
+  · exact Same.rfl' n
+  · split
+    · exact Same.rfl' n
+    · split
+      · exact Same.rfl' n
+      · exact ⟨rfl, rfl, rfl, rfl, id⟩
+
+/-- what reaches the consensus state: a peer's message, the head of its own queue, a timeout -
+    and a peer's +2/3 claim, which the reactor applies to the vote sets directly -/
 inductive In where
   | msg (m : Msg) (peer : String)
   | own
   | timeout (h r : Int) (s : Step)
+  | maj23 (height round : Int) (type : Nat) (peer : String) (bid : VoteSet.BlockID)
 
 def stepIn (n : Node) : In → Node
   | .msg m peer => handleMsg n m peer
@@ -406,6 +419,7 @@ def stepIn (n : Node) : In → Node
             | [] => n
             | m :: rest => handleMsg { n with queue := rest } m ""
   | .timeout h r s => handleTimeout n h r s
+  | .maj23 h r t peer bid => setPeerMaj23 n h r t peer bid
 
 theorem good_stepIn (n : Node) (i : In) (g : Good n) : Good (stepIn n i) := by
   cases i with
@@ -416,6 +430,7 @@ theorem good_stepIn (n : Node) (i : In) (g : Good n) : Good (stepIn n i) := by
     · exact g
     · exact good_handleMsg _ _ _ ⟨g.c1, g.c2, g.asm, g.nsp⟩
   | timeout h r s => exact good_handleTimeout _ _ _ _ g
+  | maj23 h r t peer bid => exact g.of_same (same_setPeerMaj23 _ _ _ _ _ _)
 
 theorem run_good (ins : List In) : ∀ (n : Node), Good n → Good (ins.foldl stepIn n) := by
   induction ins with
